@@ -161,7 +161,8 @@ func pieces(rng *rand.Rand, total int) []int {
 }
 
 func downOK(p *Plan, h http.Header, trailer http.Header) (bool, bool) {
-	hok := len(h.Values("X-Down-Multi")) == 2 && h.Values("X-Down-Multi")[0] == "1" && h.Values("X-Down-Multi")[1] == "2" && h.Get("Content-Type") == "application/x-vf-down"
+	hok := len(h.Values("X-Down-Multi")) == 2 && h.Values("X-Down-Multi")[0] == "1" && h.Values("X-Down-Multi")[1] == "2" &&
+		(h.Get("Content-Type") == "application/x-vf-down" || p.Status == 304) // the recording backend (net/http) itself drops Content-Type from a 304
 	if v, ok := h["X-Down-Empty"]; !ok || len(v) != 1 || v[0] != "" {
 		hok = false
 	}
@@ -454,6 +455,9 @@ func h2Batch(cl *stack.Client, ps []*Plan, rng *rand.Rand) error {
 	return err
 }
 
+var statusSweep = []int{200, 201, 202, 203, 204, 205, 206, 207, 208, 226, 299, 300, 301, 302, 303, 304, 305, 307, 308, 400, 401, 402, 403, 404, 405, 406, 407, 408, 409, 410, 411, 412,
+	413, 414, 415, 416, 417, 418, 421, 422, 423, 424, 425, 426, 428, 429, 431, 451, 499, 500, 501, 502, 503, 504, 505, 506, 507, 508, 510, 511, 599}
+
 func main() {
 	tracePath, reportPath := os.Args[1], os.Args[2]
 	seed, _ := strconv.ParseInt(os.Getenv("VERIF_SEED"), 10, 64)
@@ -515,6 +519,21 @@ func main() {
 			n := 3 + rng.Intn(3)
 			for i := 0; i < n; i++ {
 				ps = append(ps, mk(proto, "normal", preserve))
+			}
+			if c < 2 && !preserve {
+				// every status code a backend may answer with (and three unassigned ones), once per protocol
+				for _, code := range statusSweep {
+					code := code
+					ps = append(ps, mk(proto, "normal", preserve, func(p *Plan) {
+						p.Status, p.UpLen, p.UpTrail, p.DownLen, p.DownPc, p.DownTr, p.DownLate = code, 0, false, 10, 10, false, false
+						if p.UpMode == "chunked" {
+							p.UpMode = "cl"
+						}
+						if code == 204 || code == 205 || code == 304 {
+							p.DownLen = 0 // responses that carry no body by definition
+						}
+					}))
+				}
 			}
 			if c < 2 {
 				// fixed corner plans on the first connection of each protocol: bodies on methods that usually have none, with and without a declared length
